@@ -261,6 +261,30 @@ class W:
             elif c == 13:
                 ml.clear()
             return [0]
+        if c == 49:
+            # the WORLD IS REPLACED BY A COPY OF ITSELF: every object the executor knows (expressions included, sharing preserved) is
+            # copied by copy.deepcopy (it[1] == 0) or a pickle round trip, the originals are dropped and the history continues on the
+            # copies.  For the model this is no operation at all: a copy of a state is that state.
+            import copy
+            import pickle
+            self.forms = getattr(self, "forms", {})
+            how = "deepcopy" if it[1] == 0 else "pickle"
+            # (expression objects the harness numbered without keeping them in `exprs` -- equal-but-distinct clones stored by a check
+            # -- are found through the intervals that hold them)
+            stored = [(e, self.expr_num[id(e)]) for o in self.obj.values() if isinstance(o, self.g.ByteInterval)
+                      for e in o.symbolic_expressions.values() if id(e) in self.expr_num]
+            bundle = (self.obj, self.exprs, stored)
+            try:
+                objs2, exprs2, stored2 = copy.deepcopy(bundle) if how == "deepcopy" else pickle.loads(pickle.dumps(bundle, protocol=it[1]))
+            except Exception:  # noqa: BLE001
+                self.forms["world-copy-unsupported:" + how] = self.forms.get("world-copy-unsupported:" + how, 0) + 1
+                return [0]
+            self.obj, self.exprs = objs2, exprs2
+            self.num = {id(o): n for n, o in objs2.items()}
+            self.expr_num = {id(e): k for k, e in exprs2.items()}
+            self.expr_num.update({id(e): k for e, k in stored2})
+            self.forms["world-continued-on-a-copy:" + how] = self.forms.get("world-continued-on-a-copy:" + how, 0) + 1
+            return [0]
         if c == 32:
             # an EXTENDED slice (step other than 1): ir.modules[a:b:c] = values
             O[it[1]].modules[slice(it[2][0] if it[2] else None, it[3][0] if it[3] else None, it[4])] = self._form([O[x] for x in it[5]])
@@ -537,12 +561,14 @@ def copy_world(w, how, protocol=None):
     that way of copying (e.g. locally defined classes cannot be pickled)."""
     import copy
     import pickle
-    bundle = (w.obj, w.exprs)
+    stored = [(e, w.expr_num[id(e)]) for o in w.obj.values() if isinstance(o, w.g.ByteInterval)
+              for e in o.symbolic_expressions.values() if id(e) in w.expr_num]
+    bundle = (w.obj, w.exprs, stored)
     try:
         if how == "deepcopy":
-            objs2, exprs2 = copy.deepcopy(bundle)
+            objs2, exprs2, stored2 = copy.deepcopy(bundle)
         else:
-            objs2, exprs2 = pickle.loads(pickle.dumps(bundle, protocol=protocol or pickle.HIGHEST_PROTOCOL))
+            objs2, exprs2, stored2 = pickle.loads(pickle.dumps(bundle, protocol=protocol or pickle.HIGHEST_PROTOCOL))
     except Exception:  # noqa: BLE001
         return None
     w2 = W(w.g)
@@ -550,6 +576,7 @@ def copy_world(w, how, protocol=None):
     w2.num = {id(o): n for n, o in objs2.items()}
     w2.exprs = exprs2
     w2.expr_num = {id(e): k for k, e in exprs2.items()}
+    w2.expr_num.update({id(e): k for e, k in stored2})
     return w2
 
 
